@@ -207,7 +207,10 @@ def run_job(job):
             st = detsched.PCTStrategy(seed, depth=3 + seed % 4, est_steps=1500)
         else:
             st = detsched.RandomStrategy(seed, stay=0.3 + 0.6 * ((seed * 7919) % 10) / 10.0)
-        res = detsched.run(_make_scenario(sc), st, max_steps=300000, stall_timeout=120, lag=0.0, max_idle_vtime=50.0)
+        # every other execution lets the clock drift by 1e-7 s per read (invisible after rounding to ticks of 0.01 s, but
+        # `deadline - perf_counter()` is then slightly negative at the deadline, as it is in real time)
+        res = detsched.run(_make_scenario(sc), st, max_steps=300000, stall_timeout=120, lag=0.0, max_idle_vtime=50.0,
+                           clock_eps=1e-7 if item['id'] % 2 == 0 else 0.0)
         n_exec += 1
         rec = {'id': item['id'], 'p': header(sc), 'nw': sc['nw'], 'ev': strip(res.trace), 'sc': sc, 'seed': seed,
                'strategy': strat, 'status': res.status}
